@@ -306,7 +306,11 @@ class SVGLexicalParser:
             self.pos = match.end()
             if kind == "SKIP":
                 continue
-            return float(match.group())
+            value = float(match.group())
+            if value in (float("inf"), float("-inf")):
+                # A literal such as 1e999 is not a coordinate any operation can work with.
+                raise ValueError("Number out of range: %s" % match.group())
+            return value
         return None
 
     def _flag(self):
